@@ -652,7 +652,7 @@ func c05KeywordLookup(c *Ctx, rule string) {
 	// the String arm strips quotes only when the scanner classified the token as a string
 	okStrip := false
 	inspectBody(f.Decl.Body, func(x ast.Node) bool {
-		if ifs, ok := x.(*ast.IfStmt); ok && exprKey(ifs.Cond) == "ts.cur==String" {
+		if ifs, ok := x.(*ast.IfStmt); ok && exprKey(ifs.Cond) == recvName(f)+".cur==String" {
 			if len(f.Calls(ifs.Body, false, "sql.stripQuotes")) > 0 {
 				okStrip = true
 			}
